@@ -154,13 +154,15 @@ Proof. intros [[A B]|(A & B)] E1 E2; [left | right]; rewrite E1, E2; [split|spli
 Ltac mvsame2 := left; split; [reflexivity | cbn; lia].
 Lemma run_input_mv_rel2 f now s i : mv_rel2 f now s (outcome_state (run_input f now s i) s).
 Proof.
-  destruct i as [ps ts ref md amd force | id force at_eff rmeta | [a|id] md | [a|id] k]; simpl.
-  - destruct ps as [|p ps']; [mvsame2|].
+  script_split i.
+  { simpl. unfold create_tx. destruct ps as [|p ps']; [mvsame2|].
     destruct (feasible force (s_vols s) (p :: ps')); simpl; [|mvsame2].
     destruct (commit_transaction f now s (p :: ps') md ts ref) as [s1 [t|]] eqn:E; simpl.
     + pose proof (upsert_tx_accounts_frame f now s1 t amd) as (_ & _ & Hm & _ & _ & _ & _ & Hq).
       eapply mv_rel2_then_same; [eapply commit_mv_rel2; exact E | exact Hm | exact Hq].
-    + eapply commit_mv_rel2; exact E.
+    + eapply commit_mv_rel2; exact E. }
+  destruct i as [ps ts ref md amd force | id force at_eff rmeta | [a|id] md | [a|id] k | ps ts ref md amd force smd samd];
+    [apply Hc | | | | | | script_bullet Hc]; simpl.
   - destruct (find_tx (s_txs s) id) as [t|]; [|mvsame2].
     destruct (t_rev t); [mvsame2|].
     set (mark := fun x : tx => tx_with x (t_meta x) now (Some now)).
